@@ -61,6 +61,14 @@ func TestExh_C16(t *testing.T) {
 		[]Action{{Op: "start", Script: sc("healthy")}, {Op: "wait"}, {Op: "drop"}, {Op: "wait"}},
 		[]Action{{Op: "start", Script: sc("unreachable")}, {Op: "wait"}, {Op: "stop"}},
 	)
+	// the plugin side's own socket is closed underneath the stub: a lost connection like any
+	// other (through the dialer's connection and through one given with WithConnection)
+	for _, given := range []bool{false, true} {
+		for _, sync := range []bool{false, true} {
+			h := &Script{Kind: "healthy", Activate: true, Sync: sync}
+			run(C16Case{GivenConn: given, Actions: []Action{{Op: "start", Script: h}, {Op: "wait"}, {Op: "probe"}, {Op: "localdrop"}, {Op: "wait"}, {Op: "start", Script: sc("healthy")}, {Op: "localdrop"}}})
+		}
+	}
 	// what a failing dialer returns beside its error must not matter: the next Start dials
 	for _, ec := range []string{"typed-nil-tolerant", "dead", "typed-nil"} {
 		directed = append(directed, []Action{{Op: "start", Script: &Script{Kind: "unreachable", How: "custom-refused", ErrConn: ec}}, {Op: "wait"},
